@@ -16,6 +16,7 @@ func main() {
 	mon.RegisterBatch("c23-fast", func(in []byte) any { return childRun(in, false) })
 	mon.RegisterBatch("c23-slow", func(in []byte) any { return childRun(in, true) })
 	mon.RegisterBatch("c23-deep", childDeep)
+	mon.RegisterBatch("c23-conc", childConc)
 	mon.Main("mthandle", map[string]mon.PropFunc{
 		"C23": runC23,
 	})
